@@ -82,6 +82,26 @@ theorem C06_unpack_outside_unchanged (D : Path) (s0 : FS) (es : List TarEntry) (
     ∀ p, isPrefix D p = false → (unpackAll D s0 es).1.get p = s0.get p :=
   (unpackAll_safeG (good := fun _ => True) es (fun _ _ _ => trivial) ⟨fun _ _ => rfl, fun _ _ _ _ => trivial, hD⟩).1
 
+/-- **… for every configuration of the unpacker**: symlink resolution retain or not (links written as copies of what
+they point to), either symlink error strategy, any number of passes, any size limit, any requirer (with the bookkeeping of
+required link targets), any working directory. -/
+theorem C06_unpack_outside_unchanged_cfg (cfg : Cfg) (D : Path) (s0 : FS) (es : List TarEntry) (hD : s0.get D = some .dir) :
+    ∀ p, isPrefix D p = false → (unpackAllC cfg D s0 es).1.get p = s0.get p :=
+  (unpackAllC_safeG (good := fun _ => True) cfg es (fun _ _ _ => trivial) ⟨fun _ _ => rfl, fun _ _ _ _ => trivial, hD⟩).1
+
+/-- … and when the tarball is cut inside its `k`-th entry (the unpacker returns an error part-way) -/
+theorem C06_unpack_outside_unchanged_cut (cfg : Cfg) (D : Path) (s0 : FS) (es : List TarEntry) (k : Nat) (hD : s0.get D = some .dir) :
+    ∀ p, isPrefix D p = false → (unpackAllCut cfg D s0 es k).1.get p = s0.get p :=
+  (unpackAllCut_safeG (good := fun _ => True) cfg es k (fun _ _ _ => trivial) ⟨fun _ _ => rfl, fun _ _ _ _ => trivial, hD⟩).1
+
+/-- the partial form, for every configuration -/
+theorem C06_unpack_contained_cfg_partial (cfg : Cfg) (D : Path) (s0 : FS) (es : List TarEntry)
+    (hD : s0.get D = some .dir)
+    (h0 : ∀ p t, isPrefix D p = true → s0.get p = some (.link t) → ".." ∉ t.comps)
+    (hes : noDotDotTargets es = true) :
+    Contained D s0 (unpackAllC cfg D s0 es).1 :=
+  Contained_of_Safe (unpackAllC_safe cfg es (goodEntry_of_noDotDot hes) ⟨fun _ _ => rfl, h0, hD⟩)
+
 /-- the executable verdict the driver prints agrees with the first clause of `Contained` on the touched paths -/
 theorem outsideUnchangedB_sound (D : Path) (s0 s : FS) (h : ∀ p, isPrefix D p = false → s.get p = s0.get p) :
     outsideUnchangedB D s0 s = true := by
@@ -138,8 +158,8 @@ theorem C06_resolution_stays_inside (D : Path) (s : FS)
 
 def exD : Path := ["sb", "target"]
 def exS0 : FS := ((⟨fun _ => none, []⟩ : FS).put [] .dir |>.put ["sb"] .dir |>.put ["sb", "target"] .dir)
-def lnk (name : List String) (abs : Bool) (comps : List String) (raw : String) : TarEntry := ⟨'l', false, name, 0, abs, comps, raw⟩
-def reg (name : List String) (cid : Nat) : TarEntry := ⟨'r', false, name, cid, false, [""], ""⟩
+def lnk (name : List String) (abs : Bool) (comps : List String) (raw : String) : TarEntry := ⟨'l', false, name, 0, abs, comps, raw, 0⟩
+def reg (name : List String) (cid : Nat) : TarEntry := ⟨'r', false, name, cid, false, [""], "", 2⟩
 
 /-- `s → /`, `t → s/..`: both pass the lexical check; the kernel resolves `target/t` to `sb`, outside the target -/
 def ex37 : List TarEntry := [lnk ["s"] true ["", ""] "/", lnk ["t"] false ["s", ".."] "s/.."]
@@ -189,5 +209,18 @@ example : (unpackAll exD exS0 exOK).1.get ["sb", "target", "b", "f"] = some (.fi
     (unpackAll exD exS0 exOK).1.get ["sb", "target", "l"] = some (.link ⟨true, ["b"], ""⟩) ∧
     containedB exD exS0 (unpackAll exD exS0 exOK).1 = true := by decide
 example : exS0.get exD = some .dir := by decide
+
+/-! ### the non-retain mode reads a relative link target from the process's working directory -/
+
+/-- sandbox with a working directory `w` holding a file `a` (content 99) -/
+def exS0w : FS := (exS0.put ["w"] .dir).put ["w", "a"] (.file 99)
+def cfgCopy : Cfg := { Cfg.dflt with retain := false, cwd := ["w"] }
+/-- `usr/a` (content 1) and the link `usr/x -> a` beside it: the copy written for `usr/x` holds 99, the content of the
+working directory's `a`, not 1 (`os.ReadFile(target)` with the relative target as it stands); nothing outside the target
+is written (`C06_unpack_outside_unchanged_cfg`), but what is inside is not the image's (reported as a defect candidate) -/
+theorem C06_unpack_nonretain_reads_working_directory :
+    (unpackAllC cfgCopy exD exS0w [reg ["usr", "a"] 1, lnk ["usr", "x"] false ["a"] "a"]).1.get ["sb", "target", "usr", "x"] = some (.file 99) ∧
+    (unpackAllC cfgCopy exD exS0w [reg ["usr", "a"] 1, lnk ["usr", "x"] false ["a"] "a"]).1.get ["sb", "target", "usr", "a"] = some (.file 1) := by decide
+
 
 end Scalibr.Unpack
